@@ -90,6 +90,8 @@ class Scope(object):
             if a[0] == 'w':
                 self.locals.add(cls[a[1]])
                 self._expr(a[2], cls)
+            elif a[0] == 'callx':
+                self._expr(a[1], cls)
             elif a[0] == 'lam':
                 for k, b, d, ann in a[1]:
                     self._expr(d, cls)
@@ -277,6 +279,8 @@ class Interp(object):
                 f = f.parent
             self.bind(f, a[1])
             return a[1]
+        if k == 'callx':
+            return self.E(frame, a[1])
         if k == 'lam':
             for kind, b, d, ann in a[1]:
                 self.E(frame, d)
